@@ -65,15 +65,6 @@ theorem C07_parse_form (L : Nat) :
 section ring
 variable [Zero α] [One α] [Add α] [Mul α]
 
-theorem MPSM_ext (A B : MPSM α) (h1 : A.L = B.L) (h2 : ∀ k, A.site k = B.site k) (h3 : A.bond = B.bond)
-    (h4 : A.norm = B.norm) (h5 : A.bc = B.bc) : A = B := by
-  obtain ⟨L1, s1, b1, n1, c1⟩ := A
-  obtain ⟨L2, s2, b2, n2, c2⟩ := B
-  simp only at h1 h2 h3 h4 h5
-  have hs : s1 = s2 := funext h2
-  subst h1 h3 h4 h5 hs
-  rfl
-
 /-- **`convert_form(arg)` as a user calls it is the one-shot conversion of the model.**  For a
 canonical MPS and any argument that parses to proper forms `nf`, the in-place loop over the sites
 (each `get_B` seeing the tensors already converted before it) produces exactly
@@ -130,21 +121,6 @@ theorem C07_convert_form_rejects (M : MPSM α) (hL : 0 < M.L) :
   · simp only [convertFormArg, (C07_parse_form M.L).2.2.2.2.2 es h1 h2]
   · obtain ⟨L', hL'⟩ : ∃ L', M.L = L' + 1 := ⟨M.L - 1, by omega⟩
     simp [convertFormArg, parseForm, hL', List.replicate_succ, convertLoop, convertSite, h0]
-
-theorem thetaGuard_go_ok (M : MPSM α) (js : List Int)
-    (h : ∀ j ∈ js, ∃ k, M.siteIdx? j = some k ∧ (M.site k).form ≠ none) :
-    thetaGuard.go M js = none := by
-  induction js with
-  | nil => rfl
-  | cons j rest ih =>
-    obtain ⟨k, hk, hf⟩ := h j (by simp)
-    simp only [thetaGuard.go, hk]
-    have : (M.site k).form.isNone = false := by
-      cases hx : (M.site k).form with
-      | none => exact absurd hx hf
-      | some _ => rfl
-    simp only [this, Bool.false_eq_true, if_false]
-    exact ih (fun j' hj' => h j' (by simp [hj']))
 
 /-- **guards of `get_theta(i, n)`**: `n < 1` is refused (`'n needs to be larger than 0'`, the loop over
 the window is then empty); a window of `n ≥ 1` canonical sites inside a finite chain passes. -/
